@@ -78,6 +78,27 @@ def run(outcome, tier, seed):
                 for to in (targets if tier == "thorough" else [rng.choice(targets)]):
                     cases.append(cli.Case((["-f", f] if f else []) + ["-t", to, name]))
                     tags.append("name")
+        # empty and tiny inputs of every kind: the library has an answer for zero bytes too (an empty TOML table)
+        for ext in ("json", "yaml", "toml", "msgpack", "dat"):
+            fx.write("zero." + ext, b"")
+            for to in targets:
+                cases.append(cli.Case(["-t", to, "zero." + ext]))
+                tags.append("empty")
+            cases.append(cli.Case(["-t", "toml", "zero." + ext, "a.json"]))     # an empty TOML document is still the one document
+            cases.append(cli.Case(["-t", "json", "zero." + ext, "a.json"]))
+            cases.append(cli.Case(["-f", "toml", "-t", "yaml", "zero." + ext]))
+            tags += ["empty"] * 3
+        fx.write("zero", b"")
+        fx.write("one.toml", b"\n")
+        for name in ("zero", "one.toml"):
+            for to in targets:
+                cases.append(cli.Case(["-t", to, name]))
+                tags.append("empty")
+        # a recognised extension on one input must not colour the next one
+        for first, second in (("a.json", "c.toml"), ("c.toml", "noext"), ("a.json", "-"), ("b.yaml", "d.msgpack"), ("c.toml", "both.txt"),
+                              ("x.Yml", "a.json"), ("a.json", "misleading.toml")):
+            cases.append(cli.Case(["-t", rng.choice(["json", "yaml", "msgpack"]), first, second], CONTENT["yaml"] if second == "-" else None))
+            tags.append("sequence")
         # stdin, '-' at each position, '-' twice, FIFOs
         for fmt, data in CONTENT.items():
             for f in (None, fmt, "json"):
